@@ -71,6 +71,12 @@ def _cases(draw):
     for op in ops[-6:]:
         if op[0] in ("commit", "rollback", "flush", "expire"):
             op[0] = "setparent"
+    # the final transaction usually holds an insert plus an update/delete of an older row
+    small = st.integers(0, 15)
+    tail = [["new", draw(small), draw(small), 0], ["set", draw(small), draw(st.integers(0, 5)), 0],
+            [draw(st.sampled_from(["delete", "setparent", "tagadd", "remove", "pk"])), draw(small), draw(small), draw(small)]]
+    if draw(st.integers(0, 3)) > 0:
+        ops = ops[:35] + list(draw(st.permutations(tail)))
     return {
         "cfg": cfg,
         "ops": ops,
@@ -301,7 +307,7 @@ def _crash_run(case, ctx, holder, kind, point, control_final, control_stmts):
             warnings.simplefilter("ignore")
             for op in case["ops"][start:]:
                 it.step(op)
-            _final_flush(it)
+            it.guard(lambda: _final_flush(it))
             m.m_flush()
             it._note_flush()
             it.check_flush_point("repeated flush")
@@ -362,4 +368,4 @@ def check(case, ctx):
 
 
 def subs(tier):
-    return [Generated("crash_points", check, strategy=_cases(), quick=240, thorough=15000)]
+    return [Generated("crash_points", check, strategy=_cases(), quick=240, thorough=15000, budget_s_quick=100.0)]
